@@ -1,5 +1,8 @@
 import SimilarVerif.Model.Iter
 import SimilarVerif.Model.Text
+import SimilarVerif.Model.Udiff
+import SimilarVerif.Model.Remap
+import SimilarVerif.Model.Inline
 /-! Line-protocol driver: one request per line on stdin, one canonical response line on stdout.
 Imports the model only (core Lean), so it links natively. -/
 open SimilarVerif
@@ -88,7 +91,7 @@ def parseHex (s : String) : Option Bytes :=
     | a :: b :: rest => do
       let x ← hexVal a; let y ← hexVal b; let r ← go rest
       pure ((x * 16 + y).toUInt8 :: r)
-  if s == "-" then some [] else go s.toList
+  if s == "-" || s == "_" then some [] else go s.toList
 
 def bytesToChars (b : Bytes) : Option (List Char) :=
   (String.fromUTF8? (ByteArray.mk b.toArray)).map (·.toList)
@@ -120,11 +123,135 @@ def handleTok (kind mode : String) (b : Bytes) (seg : Option (List Nat)) : Strin
     | "decode" => "ok K=" ++ ",".intercalate ((charIndicesB b.length 0 b).map fun (s, e, c) => s!"{s}-{e}:{c.toNat}")
     | _ => "bad-op"
 
+def showHex (b : Bytes) : String :=
+  if b.isEmpty then "-" else
+  let d (n : Nat) : Char := if n < 10 then Char.ofNat (48 + n) else Char.ofNat (87 + n)
+  String.ofList (b.flatMap fun x => [d (x.toNat / 16), d (x.toNat % 16)])
+
+def parseTokens (s : String) : Option (List Bytes) :=
+  if s == "-" || s == "" then some [] else (s.splitOn ",").mapM parseHex
+
+def parseSegs (s : String) : Option (List Nat) := if s == "-" then some [] else parseNats s
+
+/-- tokenize by kind/mode; `seg` = external segment lengths for the unicode kinds -/
+def tokenizeBy (kind mode : String) (b : Bytes) (seg : List Nat) : Option (List (Nat × Nat)) :=
+  match kind with
+  | "uwords" | "graphemes" => if seg.all (0 < ·) && seg.sum == b.length then some (rangesOfLens 0 seg) else none
+  | _ =>
+    if mode == "str" then
+      match bytesToChars b with
+      | none => none
+      | some cs =>
+        (match kind with
+         | "lines" => some (tokenizeLinesS cs)
+         | "lnl" => some (tokenizeLinesAndNewlinesS cs)
+         | "words" => some (tokenizeWordsS cs)
+         | "chars" => some (tokenizeCharsS cs)
+         | _ => none)
+    else
+      match kind with
+      | "lines" => some (tokenizeLinesB b)
+      | "lnl" => some (tokenizeLinesAndNewlinesB b)
+      | "words" => some (tokenizeWordsB b)
+      | "chars" => some (tokenizeCharsB b)
+      | _ => none
+
+def algName : Alg → String
+  | .myers => "myers" | .patience => "patience" | .lcs => "lcs"
+
+def handleText (kind mode : String) (alg : Alg) (dl : Option Nat) (nlt : Option Bool) (old new : Bytes) (segO segN : List Nat) : String :=
+  match tokenizeBy kind mode old segO, tokenizeBy kind mode new segN with
+  | some ro, some rn =>
+    let to := (ro.map (slice old)).toArray
+    let tn := (rn.map (slice new)).toArray
+    (match textDiffOps alg false to tn { clock := dl } with
+     | .ok (ops, _) =>
+       s!"ok N={to.size},{tn.size} O={showOps ops} T={if newlineTerminated nlt (kind == "lines") then 1 else 0} A={algName alg}"
+     | .error .fuel => "fuel"
+     | .error _ => "panic")
+  | _, _ => "contract"
+
+def showInline (c : InlineChange) : String :=
+  let t := match c.tag with | .equal => "=" | .delete => "-" | .insert => "+"
+  let o := match c.oldIndex with | some i => toString i | none => "_"
+  let n := match c.newIndex with | some i => toString i | none => "_"
+  s!"{t}.{o}.{n}:" ++ "+".intercalate (c.values.map fun (e, b) => (if e then "e1" else "e0") ++ showHex b)
+
+def parseSegLines (s : String) : Option (List (List Nat)) :=
+  if s == "-" then some [] else (s.splitOn ";").mapM parseNats
+
+def lnlOf (mode : String) (b : Bytes) : List (Nat × Nat) :=
+  if mode == "str" then
+    match bytesToChars b with
+    | some cs => tokenizeLinesAndNewlinesS cs
+    | none => tokenizeLinesAndNewlinesB b
+  else tokenizeLinesAndNewlinesB b
+
+def charsOf (mode : String) (b : Bytes) : List Bytes :=
+  if mode == "str" then
+    match bytesToChars b with
+    | some cs => (tokenizeCharsS cs).map (slice b)
+    | none => (tokenizeCharsB b).map (slice b)
+  else (tokenizeCharsB b).map (slice b)
+
+def parseHexU32 (s : String) : Option UInt32 :=
+  s.toList.foldlM (fun (acc : Nat) c => (hexVal c).map (acc * 16 + ·)) 0 |>.map Nat.toUInt32
+
+def handle5 (hd a b c d : String) : String :=
+  match words hd with
+  | ["text", kind, mode, alg, dl, nlt] =>
+    (match parseAlg alg, optNat dl, parseHex a, parseHex b, parseSegs c, parseSegs d with
+     | some alg, some dl, some old, some new, some so, some sn =>
+       let nlt := if nlt == "0" then some false else if nlt == "1" then some true else none
+       handleText kind mode alg dl nlt old new so sn
+     | _, _, _, _, _, _ => "bad-op")
+  | ["inline", mode, dl] =>
+    (match optNat dl, parseOps a, parseTokens b, parseTokens c with
+     | some dl, some [x], some old, some new =>
+       (match (d.splitOn "/").map (·.trimAscii.toString) with
+        | [so, sn] =>
+          (match parseSegLines so, parseSegLines sn with
+           | some so, some sn =>
+             (match inlineChanges (lnlOf mode) false old.toArray new.toArray x so sn { clock := dl } with
+              | .ok (cs, _) => "ok L=" ++ ";".intercalate (cs.map showInline)
+              | .error .fuel => "fuel"
+              | .error _ => "panic")
+           | _, _ => "bad-op")
+        | _ => "bad-op")
+     | _, _, _, _ => "bad-op")
+  | _ => "bad-op"
+
 def handle (line : String) : String :=
   let parts := (line.splitOn "|").map (·.trimAscii.toString)
   match parts with
+  | [hd, a, b, c, d] => handle5 hd a b c d
   | [hd, so, sn, sr] =>
     (match words hd with
+     | ["udiff", radius, hdr, nlt, hint, path] =>
+       (match radius.toNat?, parseOps so, parseTokens sn, parseTokens sr with
+        | some radius, some ops, some old, some new =>
+          let header := if hdr == "1" then some (ascii "a.txt", ascii "b.txt") else none
+          (match renderUnified radius header ops old.toArray new.toArray (nlt == "1") (hint == "1") (path == "display") with
+           | .ok out => "ok U=" ++ showHex out
+           | .error _ => "panic")
+        | _, _, _, _ => "bad-op")
+     | ["remap"] =>
+       (match parseOps so, parseSegs sn, parseSegs sr with
+        | some ops, some lo, some ln =>
+          (match remapOps (remapIndexes 0 lo).toArray (remapIndexes 0 ln).toArray ops with
+           | .ok sl => "ok S=" ++ ",".intercalate (sl.map fun (t, side, a, b) =>
+               let t := match t with | .equal => "=" | .delete => "-" | .insert => "+"
+               s!"{t}.{if side then "n" else "o"}.{a}-{b}")
+           | .error _ => "panic")
+        | _, _, _ => "bad-op")
+     | ["identify"] =>
+       (match parseSeq so, parseSeq sn, parseNats sr with
+        | some (oOff, old), some (nOff, new), some [os, oe, ns, ne] =>
+          (match identifyDistinct (Env.ofSeqs old new oOff nOff) os oe ns ne with
+           | some (io, i_n) =>
+             s!"ok I={",".intercalate (io.toList.map toString)};{",".intercalate (i_n.toList.map toString)} R={os},{os + io.size},{ns},{ns + i_n.size}"
+           | none => "panic")
+        | _, _, _ => "bad-op")
      | ["diff", alg, stack, dl, fail, native, repair] =>
        (match parseAlg alg, optNat dl, optNat fail, parseSeq so, parseSeq sn, parseNats sr with
         | some alg, some dl, some fail, some (oOff, old), some (nOff, new), some [os, oe, ns, ne] =>
@@ -156,6 +283,13 @@ def handle (line : String) : String :=
      | _ => "bad-op")
   | [hd, body, seg] =>
     (match words hd with
+     | ["close", mode, n, cutoff] =>
+       (match n.toNat?, parseHexU32 cutoff, parseHex body, parseTokens seg with
+        | some n, some bits, some word, some cands =>
+          (match getCloseMatches (charsOf mode) word cands n (Float32.ofBits bits) with
+           | .ok r => "ok M=" ++ (if r.isEmpty then "-" else ",".intercalate (r.map fun b => if b.isEmpty then "_" else showHex b))
+           | .error _ => "panic")
+        | _, _, _, _ => "bad-op")
      | ["tok", kind, mode] =>
        (match parseHex body, parseNats seg with
         | some b, some lens => handleTok kind mode b (some lens)
